@@ -489,7 +489,17 @@ fn sg_strategy(tier: Tier) -> BoxedStrategy<SgCase> {
     proptest::collection::vec(op, 1..tier.pick(30usize, 60usize)).prop_map(|ops| SgCase { ops }).boxed()
 }
 pub fn run_stacked(case: &SgCase, ctx: &mut Ctx) -> R {
+    run_stacked_mode(case, ctx, false)
+}
+pub fn sg_strategy_pub(tier: Tier) -> BoxedStrategy<SgCase> {
+    sg_strategy(tier)
+}
+/// `principal_only` (used by C06): only the principal half of the stacked guards is judged - a guarded function must not run for
+/// anyone but its authorized principal, whatever happened to the pause guard - and the non-trivial rule is about refused principals
+pub fn run_stacked_mode(case: &SgCase, ctx: &mut Ctx, principal_only: bool) -> R {
     use crate::contracts::c16::stacked::Stacked;
+    let pid = if principal_only { "C06" } else { "C16" };
+    let (mut refused_principal, mut passed_principal) = (0u32, 0u32);
     const NAMES: [&str; 7] =
         ["owner_then_pause", "pause_then_owner", "admin_then_pause", "pause_then_admin", "role_then_pause", "pause_then_role", "owner_then_when_paused"];
     let e = envx::new_env(100, envx::BIG_TTL);
@@ -539,15 +549,24 @@ pub fn run_stacked(case: &SgCase, ctx: &mut Ctx) -> R {
                 let principal_ok = *with_auth && if is_role { (*who as usize) % 3 == 1 } else { (*who as usize) % 3 == 0 };
                 let pause_ok = if k == 6 { paused } else { !paused };
                 if r.is_ok() {
-                    ensure!(pause_ok, format!("C16/stacked.{name}/pause-guard-bypassed"), "step {i}: {name} ran while paused = {paused} (the pause guard stacked with the principal guard was lost)");
-                    ensure!(principal_ok, format!("C16/stacked.{name}/principal-guard-bypassed"), "step {i}: {name} ran for caller kind {} with_auth={with_auth}", who % 3);
+                    if !principal_only {
+                        ensure!(pause_ok, format!("C16/stacked.{name}/pause-guard-bypassed"), "step {i}: {name} ran while paused = {paused} (the pause guard stacked with the principal guard was lost)");
+                    }
+                    ensure!(principal_ok, format!("{pid}/stacked.{name}/principal-guard-bypassed"), "step {i}: {name} ran for caller kind {} (0 owner/admin, 1 role member, 2 stranger) with_auth={with_auth}", who % 3);
+                    passed_principal += 1;
                     counter += 1;
                     ensure!(r == Ok(counter), "C16/stacked/counter", "step {i}: {name} returned {:?}, expected {counter}", r);
                     if was_unpaused && k != 6 {
                         ok_after = true;
                     }
                 } else {
-                    ensure!(!(pause_ok && principal_ok), format!("C16/stacked.{name}/refused-with-open-gates"), "step {i}: {name}: authorized principal, pause state {paused} allows it, yet refused: {:?}", r);
+                    if !principal_only {
+                        ensure!(!(pause_ok && principal_ok), format!("C16/stacked.{name}/refused-with-open-gates"), "step {i}: {name}: authorized principal, pause state {paused} allows it, yet refused: {:?}", r);
+                    }
+                    if pause_ok && !principal_ok {
+                        refused_principal += 1;
+                        ctx.class(&format!("stacked_refused_principal:{name}"));
+                    }
                     if principal_ok && !pause_ok {
                         blocked_by_pause += 1;
                         ctx.class(&format!("stacked_blocked_by_pause:{name}"));
@@ -558,7 +577,12 @@ pub fn run_stacked(case: &SgCase, ctx: &mut Ctx) -> R {
         let p = envx::call_t::<bool>(&e, &c, "paused", args![&e]).map_err(|er| violation("C16/stacked/getter-failed", er))?;
         ensure!(p == paused, "C16/stacked/flag", "step {i}: paused() = {p}, model {paused}");
     }
-    if blocked_by_pause >= 2 && ok_after {
+    if principal_only {
+        if refused_principal >= 2 && passed_principal >= 1 {
+            ctx.nontrivial = true;
+            ctx.class("nontrivial_stacked");
+        }
+    } else if blocked_by_pause >= 2 && ok_after {
         ctx.nontrivial = true;
         ctx.class("nontrivial_stacked");
     }
